@@ -1,11 +1,19 @@
 ------------------------------- MODULE Spans -------------------------------
-(* C32.  Spans [a, b) over integer boundaries 0..NB-1 carry keys (seqnum s,   *)
-(* suffix x).  Cover(spans, u) is the set of keys of the spans covering the   *)
-(* unit interval [u, u+1); with integer bounds that is per-user-key coverage. *)
+(* C32.  Spans [a, b) over integer boundaries 0..NB-1 carry keys            *)
+(*   [s seqnum, t kind (19 RANGEKEYDEL, 20 RANGEKEYUNSET, 21 RANGEKEYSET),    *)
+(*    x suffix, v value id (0 for kinds without a value)].                    *)
+(* Cover(spans, u) is the set of keys of the spans covering the unit interval *)
+(* [u, u+1); with integer bounds that is per-user-key coverage.  A key is its *)
+(* whole record: a value or a suffix that does not travel with its key is a   *)
+(* coverage change.                                                            *)
 (* Declarative definitions of what fragmenting (keyspan.Fragmenter.Add /      *)
 (* Truncate / Finish), truncating to bounds (keyspan.Truncate), merging       *)
-(* levels (keyspanimpl.MergingIter) and defragmenting                         *)
-(* (keyspan.DefragmentingIter with DefragmentInternal) must preserve:         *)
+(* levels (keyspanimpl.MergingIter), defragmenting (keyspan.DefragmentingIter *)
+(* with a DefragmentMethod m: "internal" = keyspan.DefragmentInternal,        *)
+(* "user" = rangekeystack.UserIteratorConfig.ShouldDefragment, which sees     *)
+(* transformed spans: RANGEKEYSETs by ascending suffix, and whose observable  *)
+(* key is (suffix, value)), and merging followed by defragmenting ("mdefrag": *)
+(* the compaction's range-key input iterator, compaction.go) must preserve:   *)
 (* Fragmented(in, out).  Generator + oracle, as CompactStream.                *)
 EXTENDS Integers, Sequences, FiniteSets, TLC, Json
 
@@ -14,36 +22,53 @@ CONSTANTS NB,        \* boundaries 0..NB-1
           MaxSpans,  \* spans per case
           MaxKeys,   \* keys per span (1..MaxKeys)
           NLevels,   \* levels of a merge case
-          Ops,       \* operations to generate: subset of {"frag","trunc","merge","defrag"}
+          Ops,       \* operations to generate: subset of {"frag","trunc","merge","defrag","mdefrag"}
+          DSeqs, DKinds, DVals,   \* key pool of the already fragmented inputs (defrag, mdefrag): seqnums, kinds, value ids
+          DMethods,  \* DefragmentMethods to generate: subset of {"internal", "user"}
           BugMode, Emit
 
 Units == 0..(NB - 2)
 ToSet(s) == {s[i] : i \in DOMAIN s}
-KeyId(k) == k.s * 10 + k.x
-KeyIds(ks) == {KeyId(ks[j]) : j \in DOMAIN ks}
-Cover(sp, u) == UNION {KeyIds(sp[i].ks) : i \in {j \in DOMAIN sp : sp[j].a <= u /\ u < sp[j].b}}
-SpanOK(s) == s.a >= 0 /\ s.a < s.b /\ s.b <= NB - 1 /\ s.ks # <<>>
-             /\ \A j \in 1..(Len(s.ks) - 1) : s.ks[j].s > s.ks[j + 1].s      \* keys by trailer descending
+(* the identity of a key: the whole record; under user iteration (spans transformed by          *)
+(* UserIteratorConfig.Transform) sequence numbers are not observable: (suffix, value)            *)
+UserView(in) == in.op = "defrag" /\ in.m = "user"
+KeyId(in, k) == IF UserView(in) THEN <<k.x, k.v>> ELSE <<k.s, k.t, k.x, k.v>>
+KeyIds(in, ks) == {KeyId(in, ks[j]) : j \in DOMAIN ks}
+Cover(in, sp, u) == UNION {KeyIds(in, sp[i].ks) : i \in {j \in DOMAIN sp : sp[j].a <= u /\ u < sp[j].b}}
+Trailer(k) == k.s * 256 + k.t
+KeyOK(k) == k.t \in {19, 20, 21} /\ (k.t # 21 => k.v = 0) /\ (k.t = 19 => k.x = 0)
+SpanOK(in, s) == /\ s.a >= 0 /\ s.a < s.b /\ s.b <= NB - 1 /\ s.ks # <<>>
+                 /\ \A j \in DOMAIN s.ks : KeyOK(s.ks[j])
+                 /\ IF UserView(in)
+                    THEN \A j \in DOMAIN s.ks : /\ s.ks[j].t = 21                              \* sets only,
+                                                 /\ (j > 1 => s.ks[j - 1].x < s.ks[j].x)        \* by suffix ascending, one per suffix
+                    ELSE \A j \in 1..(Len(s.ks) - 1) : Trailer(s.ks[j]) > Trailer(s.ks[j + 1])  \* keys by trailer descending
 (* sorted, non-overlapping, non-empty fragments *)
-WellFormed(fr) == /\ \A i \in DOMAIN fr : SpanOK(fr[i])
-                  /\ \A i \in 1..(Len(fr) - 1) : fr[i].b <= fr[i + 1].a
+WellFormed(in, fr) == /\ \A i \in DOMAIN fr : SpanOK(in, fr[i])
+                      /\ \A i \in 1..(Len(fr) - 1) : fr[i].b <= fr[i + 1].a
 
 (* what every unit must be covered by after the operation *)
 AllLevels(in) == UNION {{<<i, j>> : j \in DOMAIN in.levels[i]} : i \in DOMAIN in.levels}
-MergedCover(in, u) == UNION {Cover(in.levels[i], u) : i \in DOMAIN in.levels}
-Target(in, u) == IF in.op = "trunc" THEN (IF in.lo <= u /\ u < in.hi THEN Cover(in.levels[1], u) ELSE {})
-                 ELSE IF in.op = "merge" THEN MergedCover(in, u)
-                 ELSE Cover(in.levels[1], u)
+MergedCover(in, u) == UNION {Cover(in, in.levels[i], u) : i \in DOMAIN in.levels}
+Target(in, u) == IF in.op = "trunc" THEN (IF in.lo <= u /\ u < in.hi THEN Cover(in, in.levels[1], u) ELSE {})
+                 ELSE IF in.op \in {"merge", "mdefrag"} THEN MergedCover(in, u)
+                 ELSE Cover(in, in.levels[1], u)
 
 (* preconditions: well-formed spans; key seqnums distinct over the whole case, except for defragmentation *)
-(* whose input is an already fragmented list in which abutting fragments may carry the same keys          *)
+(* whose input is an already fragmented list (per level) in which fragments may carry the same keys, or    *)
+(* keys differing in one field only (one ingested table gives all its keys one seqnum); levels of an       *)
+(* mdefrag case hold disjoint seqnums                                                                        *)
 AllSeqs(in) == [p \in AllLevels(in) |-> {in.levels[p[1]][p[2]].ks[j].s : j \in DOMAIN in.levels[p[1]][p[2]].ks}]
+LevelSeqs(in, i) == UNION {AllSeqs(in)[p] : p \in {q \in AllLevels(in) : q[1] = i}}
+Fragd(in) == in.op \in {"defrag", "mdefrag"}
 Pre(in) ==
-  /\ in.op \in {"frag", "trunc", "merge", "defrag"}
-  /\ \A p \in AllLevels(in) : SpanOK(in.levels[p[1]][p[2]])
-  /\ (in.op # "merge" => Len(in.levels) = 1)
-  /\ (in.op = "defrag" => WellFormed(in.levels[1]))
-  /\ (in.op # "defrag" =>
+  /\ in.op \in {"frag", "trunc", "merge", "defrag", "mdefrag"}
+  /\ in.m \in (IF in.op = "defrag" THEN {"internal", "user"} ELSE {""})
+  /\ \A p \in AllLevels(in) : SpanOK(in, in.levels[p[1]][p[2]])
+  /\ (in.op \notin {"merge", "mdefrag"} => Len(in.levels) = 1)
+  /\ (Fragd(in) => \A i \in DOMAIN in.levels : WellFormed(in, in.levels[i]))
+  /\ (in.op = "mdefrag" => \A i, j \in DOMAIN in.levels : i # j => LevelSeqs(in, i) \cap LevelSeqs(in, j) = {})
+  /\ (~Fragd(in) =>
         /\ \A p, r \in AllLevels(in) : p # r => AllSeqs(in)[p] \cap AllSeqs(in)[r] = {}
         (* Fragmenter.Add: spans arrive ordered by start key *)
         /\ \A i \in DOMAIN in.levels : \A j \in 1..(Len(in.levels[i]) - 1) : in.levels[i][j].a <= in.levels[i][j + 1].a)
@@ -51,13 +76,20 @@ Pre(in) ==
 
 FirstGE(fr, k) == LET S == {i \in DOMAIN fr : fr[i].b > k} IN IF S = {} THEN 0 ELSE CHOOSE i \in S : \A j \in S : i <= j
 LastLT(fr, k) == LET S == {i \in DOMAIN fr : fr[i].a < k} IN IF S = {} THEN 0 ELSE CHOOSE i \in S : \A j \in S : i >= j
+(* the fragment (index into fwd, 0 = none) a step in direction d = +1 / -1 must show after a seek that landed on i; *)
+(* a seek that found nothing leaves the iterator beyond that end of the fragments                                   *)
+AfterGE(n, i, d) == IF i = 0 THEN (IF d = 1 THEN 0 ELSE n) ELSE IF d = 1 THEN (IF i < n THEN i + 1 ELSE 0) ELSE i - 1
+AfterLT(n, i, d) == IF i = 0 THEN (IF d = 1 THEN (IF n > 0 THEN 1 ELSE 0) ELSE 0) ELSE IF d = 1 THEN (IF i < n THEN i + 1 ELSE 0) ELSE i - 1
 Fragmented(in, out) ==
   /\ ~out.err
-  /\ WellFormed(out.fwd)
+  /\ WellFormed(in, out.fwd)
   /\ out.bwd = out.fwd                                           \* both iteration directions see the same fragments
-  /\ \A u \in Units : Cover(out.fwd, u) = Target(in, u)          \* coverage preserved exactly
-  /\ \A i \in DOMAIN out.seeks : /\ out.seeks[i].ge = FirstGE(out.fwd, out.seeks[i].k)
-                                 /\ out.seeks[i].lt = LastLT(out.fwd, out.seeks[i].k)
+  /\ \A u \in Units : Cover(in, out.fwd, u) = Target(in, u)      \* coverage preserved exactly (keys with suffix and value)
+  \* seeks land on whole fragments of the forward iteration (index 0 = none, -1 = a span that is not one of them),
+  \* and a step in either direction from there shows the neighbouring fragment
+  /\ \A i \in DOMAIN out.seeks : LET q == out.seeks[i]  n == Len(out.fwd) IN
+         /\ q.ge = FirstGE(out.fwd, q.k) /\ q.gn = AfterGE(n, q.ge, 1) /\ q.gp = AfterGE(n, q.ge, -1)
+         /\ q.lt = LastLT(out.fwd, q.k) /\ q.ln = AfterLT(n, q.lt, 1) /\ q.lp = AfterLT(n, q.lt, -1)
 
 (* ---- reference operator: unit-width fragments, defragmentation merges abutting equal fragments ---- *)
 Max(S) == CHOOSE x \in S : \A y \in S : y <= x
@@ -67,55 +99,78 @@ KeysOf(in, u) ==   \* the key records covering u, newest first
                        /\ (BugMode = "DropAtBoundary" => in.levels[q[1]][q[2]].a # u \/ u = 0)
                        /\ (BugMode = "MergeDropsLowerLevel" => q[1] = 1)}}
       F[S \in SUBSET recs] == IF S = {} THEN <<>>
-                              ELSE LET m == CHOOSE r \in S : \A o \in S : o.s <= r.s IN <<m>> \o F[S \ {m}]
+                              ELSE LET m == CHOOSE r \in S : \A o \in S : Trailer(o) <= Trailer(r) IN <<m>> \o F[S \ {m}]
   IN F[recs]
 InBounds(in, u) == in.op # "trunc" \/ (in.lo <= u /\ (u < in.hi \/ BugMode = "TruncKeepsBeyondEnd"))
 RECURSIVE UnitFrags(_, _)
 UnitFrags(in, u) == IF u > NB - 2 THEN <<>>
                     ELSE (IF InBounds(in, u) /\ KeysOf(in, u) # <<>> THEN <<[a |-> u, b |-> u + 1, ks |-> KeysOf(in, u)]>> ELSE <<>>)
                          \o UnitFrags(in, u + 1)
-RECURSIVE Defrag(_)
-Defrag(fr) == IF Len(fr) <= 1 THEN fr
-              ELSE IF fr[1].b = fr[2].a /\ (fr[1].ks = fr[2].ks \/ BugMode = "DefragJoinsUnequal")
-                   THEN Defrag(<<[a |-> fr[1].a, b |-> fr[2].b, ks |-> fr[1].ks]>> \o Tail(Tail(fr)))
-                   ELSE <<fr[1]>> \o Defrag(Tail(fr))
-SpecOut(in) == LET f == IF in.op = "defrag" THEN Defrag(in.levels[1]) ELSE UnitFrags(in, 0)
+(* two abutting fragments are joined when their keys are the same, key by key; the joined fragment keeps the left keys *)
+(* (keyspan.StaticDefragmentReducer).  Seeded bug DefragIgnoresValue: the values are not compared.                     *)
+SameKeys(in, ka, kb) ==
+  \/ BugMode = "DefragJoinsUnequal"
+  \/ /\ Len(ka) = Len(kb)
+     /\ \A j \in DOMAIN ka : IF BugMode = "DefragIgnoresValue" THEN [ka[j] EXCEPT !.v = 0] = [kb[j] EXCEPT !.v = 0]
+                              ELSE KeyId(in, ka[j]) = KeyId(in, kb[j])
+RECURSIVE Defrag(_, _)
+Defrag(in, fr) == IF Len(fr) <= 1 THEN fr
+              ELSE IF fr[1].b = fr[2].a /\ SameKeys(in, fr[1].ks, fr[2].ks)
+                   THEN Defrag(in, <<[a |-> fr[1].a, b |-> fr[2].b, ks |-> fr[1].ks]>> \o Tail(Tail(fr)))
+                   ELSE <<fr[1]>> \o Defrag(in, Tail(fr))
+SpecOut(in) == LET f == IF in.op = "defrag" THEN Defrag(in, in.levels[1])
+                        ELSE IF in.op = "mdefrag" THEN Defrag(in, UnitFrags(in, 0)) ELSE UnitFrags(in, 0)
                IN [fwd |-> f, bwd |-> f, seeks |-> <<>>, err |-> FALSE]
 
 (* ---- input generator ---- *)
 VARIABLES op, lv, par, ph
 vars == <<op, lv, par, ph>>
-NoPar == [lo |-> 0, hi |-> 0, cut |-> -1]
-KeySeqs == {ks \in UNION {[1..n -> [s : 1..NSeq, x : 0..1]] : n \in 1..MaxKeys} : \A j \in 1..(Len(ks) - 1) : ks[j].s > ks[j + 1].s}
+NoPar == [lo |-> 0, hi |-> 0, cut |-> -1, m |-> ""]
+(* keys of the spans given to the fragmenter: RANGEKEYSETs, distinct seqnums; the value is determined by the key *)
+KeySeqs == {ks \in UNION {[1..n -> {[s |-> q, t |-> 21, x |-> x, v |-> q] : q \in 1..NSeq, x \in 0..1}] : n \in 1..MaxKeys} :
+              \A j \in 1..(Len(ks) - 1) : ks[j].s > ks[j + 1].s}
+(* keys of already fragmented inputs: every combination of seqnum, kind, suffix and value, so that two fragments may *)
+(* differ in exactly one of them                                                                                      *)
+DKeys == {[s |-> q, t |-> t, x |-> (IF t = 19 THEN 0 ELSE x), v |-> (IF t = 21 THEN v ELSE 0)] : q \in DSeqs, t \in DKinds, x \in 0..1, v \in DVals}
+DKeySeqs(m) == {ks \in UNION {[1..n -> DKeys] : n \in 1..MaxKeys} :
+                  IF m = "user" THEN \A j \in DOMAIN ks : ks[j].t = 21 /\ (j > 1 => ks[j - 1].x < ks[j].x)
+                  ELSE \A j \in 1..(Len(ks) - 1) : Trailer(ks[j]) > Trailer(ks[j + 1])}
 Used == UNION {UNION {{lv[i][j].ks[m].s : m \in DOMAIN lv[i][j].ks} : j \in DOMAIN lv[i]} : i \in DOMAIN lv}
 NSpans == Len(lv[1]) + (IF Len(lv) > 1 THEN Len(lv[2]) ELSE 0) + (IF Len(lv) > 2 THEN Len(lv[3]) ELSE 0)
 Init == op = "none" /\ lv = <<>> /\ par = NoPar /\ ph = "op"
-ChooseOp(o) == /\ ph = "op" /\ op' = o /\ ph' = "spans" /\ par' = NoPar
-               /\ lv' = IF o = "merge" THEN [i \in 1..NLevels |-> <<>>] ELSE << <<>> >>
+ChooseOp(o, m) == /\ ph = "op" /\ op' = o /\ ph' = "spans" /\ par' = [NoPar EXCEPT !.m = m]
+                  /\ lv' = IF o \in {"merge", "mdefrag"} THEN [i \in 1..NLevels |-> <<>>] ELSE << <<>> >>
 (* spans are added level by level, within a level ordered by (a, b) *)
 AddSpan(i, a, b, ks) ==
-  /\ ph = "spans" /\ op # "defrag" /\ NSpans < MaxSpans /\ a < b
+  /\ ph = "spans" /\ op \notin {"defrag", "mdefrag"} /\ NSpans < MaxSpans /\ a < b
   /\ \A j \in (i + 1)..Len(lv) : lv[j] = <<>>
   /\ (lv[i] # <<>> => (lv[i][Len(lv[i])].a < a \/ (lv[i][Len(lv[i])].a = a /\ lv[i][Len(lv[i])].b <= b)))
   /\ \A m \in DOMAIN ks : ks[m].s \notin Used
   /\ lv' = [lv EXCEPT ![i] = Append(@, [a |-> a, b |-> b, ks |-> ks])]
   /\ UNCHANGED <<op, par, ph>>
-(* defragmentation input: the next fragment starts at or after the previous end *)
-AddFrag(a, b, ks) ==
-  /\ ph = "spans" /\ op = "defrag" /\ Len(lv[1]) < MaxSpans /\ a < b
-  /\ (lv[1] # <<>> => lv[1][Len(lv[1])].b <= a)
-  /\ lv' = [lv EXCEPT ![1] = Append(@, [a |-> a, b |-> b, ks |-> ks])]
+(* already fragmented input (a level): the next fragment starts at or after the previous end; the levels of an  *)
+(* mdefrag case hold disjoint seqnums                                                                            *)
+LvSeqs(i) == UNION {{lv[i][j].ks[m].s : m \in DOMAIN lv[i][j].ks} : j \in DOMAIN lv[i]}
+AddFrag(i, a, b, ks) ==
+  /\ ph = "spans" /\ op \in {"defrag", "mdefrag"} /\ NSpans < MaxSpans /\ a < b
+  /\ \A j \in (i + 1)..Len(lv) : lv[j] = <<>>
+  /\ (lv[i] # <<>> => lv[i][Len(lv[i])].b <= a)
+  /\ \A j \in DOMAIN lv : j # i => \A m \in DOMAIN ks : ks[m].s \notin LvSeqs(j)
+  /\ lv' = [lv EXCEPT ![i] = Append(@, [a |-> a, b |-> b, ks |-> ks])]
   /\ UNCHANGED <<op, par, ph>>
 Finish(p) == /\ ph = "spans" /\ NSpans > 0 /\ ph' = "done" /\ par' = p /\ UNCHANGED <<op, lv>>
-Pars == IF op = "trunc" THEN {[lo |-> l, hi |-> h, cut |-> -1] : l \in 0..(NB - 2), h \in 1..(NB - 1)}
-        ELSE IF op = "frag" THEN {[lo |-> 0, hi |-> 0, cut |-> c] : c \in -1..(NB - 1)}
-        ELSE {NoPar}
-Next == \/ \E o \in Ops : ChooseOp(o)
-        \/ \E i \in DOMAIN lv, a \in 0..(NB - 2), b \in 1..(NB - 1), ks \in KeySeqs : AddSpan(i, a, b, ks) \/ (i = 1 /\ AddFrag(a, b, ks))
+Pars == IF op = "trunc" THEN {[lo |-> l, hi |-> h, cut |-> -1, m |-> ""] : l \in 0..(NB - 2), h \in 1..(NB - 1)}
+        ELSE IF op = "frag" THEN {[lo |-> 0, hi |-> 0, cut |-> c, m |-> ""] : c \in -1..(NB - 1)}
+        ELSE {par}
+Next == \/ \E o \in Ops : \E m \in (IF o = "defrag" THEN DMethods ELSE {""}) : ChooseOp(o, m)
+        \/ /\ ph = "spans" /\ op \notin {"defrag", "mdefrag"}
+           /\ \E i \in DOMAIN lv, a \in 0..(NB - 2), b \in 1..(NB - 1), ks \in KeySeqs : AddSpan(i, a, b, ks)
+        \/ /\ ph = "spans" /\ op \in {"defrag", "mdefrag"}
+           /\ \E i \in DOMAIN lv, a \in 0..(NB - 2), b \in 1..(NB - 1), ks \in DKeySeqs(par.m) : AddFrag(i, a, b, ks)
         \/ \E p \in Pars : (p.lo < p.hi \/ op # "trunc") /\ Finish(p)
 Spec == Init /\ [][Next]_vars
 
-Input == [op |-> op, levels |-> lv, lo |-> par.lo, hi |-> par.hi, cut |-> par.cut]
+Input == [op |-> op, levels |-> lv, lo |-> par.lo, hi |-> par.hi, cut |-> par.cut, m |-> par.m]
 Inv == (ph = "done" /\ Pre(Input)) => Fragmented(Input, SpecOut(Input))
 EmitInv == (Emit /\ ph = "done" /\ Pre(Input)) => PrintT(ToJson(Input))
 =============================================================================
